@@ -134,9 +134,15 @@ func c09gen(rng *rand.Rand, thorough bool) (limit int, unit bool, lists [][]c09o
 		if unit && limit > 2 {
 			limit = 1 + rng.Intn(2)
 		}
+		if rng.Intn(3) == 0 { // one caller only: the sequential special case, independent of the scheduler
+			ng, maxOps = 1, 12
+		}
 	}
 	for g := 0; g < ng; g++ {
 		n := 2 + rng.Intn(maxOps-1)
+		if ng == 1 {
+			n = 8 + rng.Intn(5)
+		}
 		var l []c09op
 		for i := 0; i < n; i++ {
 			o := c09op{G: g + 1, Op: weights[rng.Intn(len(weights))], K: 1 + rng.Intn(nkeys)}
